@@ -12,12 +12,21 @@ structure CS where
   args : List Bytes
   positional : List (Nat × Nat)
   cmd : Nat
+  /-- a word has been passed through to the remaining arguments (`len(s.retargs) != 0`) -/
+  restSeen : Bool := false
 
 def CS.fill (s : CS) (ci : Nat) : CS :=
   { s with positional := (List.range (s.P.cmd ci).args.length).map fun i => (ci, i), cmd := ci }
 
 /-- `skipPositional(s, n)` -/
 def CS.skipPositional (s : CS) (n : Nat) : CS := { s with positional := s.positional.drop n }
+
+/-- `passThrough(s, arg)`: a word the parser does not interpret goes to the next positional
+    argument, or else to the remaining arguments -/
+def CS.passThrough (s : CS) : CS :=
+  match s.positional with
+  | p :: ps => if (s.P.argAt p).isRemaining then s else { s with positional := ps }
+  | [] => { s with restSeen := true }
 
 /-- the short-option walk of the completion loop: returns the option found last (or none) and
     whether it may still take the next word as its argument -/
@@ -32,15 +41,16 @@ def compShortWalk (s : CS) (total : Nat) : Nat → Bytes → Nat → Option ORef
       if i = 0 && (s.P.opt r).ty.canArgument && total ≠ (encodeRune c).length then (some r, false)
       else compShortWalk s total fuel ((b :: rest).drop w) (i + w) (some r)
 
-/-- the `for len(s.args) > 1` loop; returns the state and the option whose value is being typed -/
-def compWalk : Nat → CS → Option ORef → CS × Option ORef
-  | 0, s, opt => (s, opt)
+/-- the `for len(s.args) > 1` loop; returns the state, the option whose value is being typed, and
+    whether the rest of the line is passed through by the parser (`terminated`) -/
+def compWalk : Nat → CS → Option ORef → CS × Option ORef × Bool
+  | 0, s, opt => (s, opt, false)
   | fuel + 1, s, opt =>
     match s.args with
     | arg :: rest@(_ :: _) =>
       let s := { s with args := rest }
       if s.P.opts.passDoubleDash && arg = B "--" then
-        (s.skipPositional (rest.length - 1), none)
+        (s.skipPositional (rest.length - 1), none, true)
       else if argumentIsOption arg then
         let (_, optname, islong) := stripOptionPrefix arg
         let (optname, _, argument) := splitOption optname islong
@@ -51,7 +61,8 @@ def compWalk : Nat → CS → Option ORef → CS × Option ORef
             else compShortWalk s optname.length (optname.length + 1) optname 0 none
           match o with
           | none =>
-            if s.P.opts.passAfterNonOption then (s.skipPositional (rest.length - 1), none)
+            if s.P.opts.ignoreUnknown then compWalk fuel s.passThrough opt
+            else if s.P.opts.passAfterNonOption then (s.skipPositional (rest.length - 1), none, false)
             else compWalk fuel s opt
           | some r =>
             let op := s.P.opt r
@@ -60,16 +71,15 @@ def compWalk : Nat → CS → Option ORef → CS × Option ORef
               | _ :: rest'@(_ :: _) => compWalk fuel { s with args := rest' } opt
               | _ => compWalk fuel s (some r)
             else compWalk fuel s opt
+      else if s.P.opts.passAfterNonOption && (s.P.lookupCmd s.cmd arg).isNone then
+        (s.skipPositional rest.length, none, true)
       else
         let s :=
-          match s.positional with
-          | p :: ps => if (s.P.argAt p).isRemaining then s else { s with positional := ps }
-          | [] =>
-            match s.P.lookupCmd s.cmd arg with
-            | some sub => s.fill sub
-            | none => s
+          match s.P.lookupCmd s.cmd arg with
+          | some sub => if s.positional.isEmpty && !s.restSeen then s.fill sub else s.passThrough
+          | none => s.passThrough
         compWalk fuel s none
-    | _ => (s, opt)
+    | _ => (s, opt, false)
 
 /-- completions offered by the predeclared Completer types (harness/types.go) -/
 def completerItems (t : Ty) (m : Bytes) : List Bytes :=
@@ -110,39 +120,44 @@ def insertItem (x : Bytes × Bytes) : List (Bytes × Bytes) → List (Bytes × B
   | [] => [x]
   | y :: ys => if bytesLe x.1 y.1 then x :: y :: ys else y :: insertItem x ys
 
+/-- the candidates for the last word, given where the walk ended: the option whose value is being
+    typed, and whether the parser passes the rest of the line through (`terminated`) -/
+def completeLast (s : CS) (opt : Option ORef) (terminated : Bool) (lastarg : Bytes) : List (Bytes × Bytes) :=
+  match opt with
+  | some r => completeValue (s.P.opt r).ty [] lastarg
+  | none =>
+    if !terminated && argumentStartsOption lastarg then
+      let (pfx, optname, islong) := stripOptionPrefix lastarg
+      let (optname', split, argument) := splitOption optname islong
+      match argument with
+      | none =>
+        if !islong then
+          let (rname, n) := decodeRune optname'
+          match s.P.lookupShort s.cmd rname with
+          | some r =>
+            if (s.P.opt r).ty.canArgument then completeValue (s.P.opt r).ty (pfx ++ encodeRune rname) (optname'.drop n)
+            else completeOptionNames s pfx optname' true
+          | none => completeOptionNames s pfx optname' true
+        else completeOptionNames s pfx optname' false
+      | some a =>
+        let o := if islong then s.P.lookupLong s.cmd optname'
+                 else if encodeRune (decodeRune optname').1 = optname' then s.P.lookupShort s.cmd (decodeRune optname').1 else none
+        match o with
+        | some r => completeValue (s.P.opt r).ty (pfx ++ optname' ++ split) a
+        | none => []
+    else
+      match s.positional with
+      | p :: _ => completeValue (s.P.argAt p).ty [] lastarg
+      | [] => if !terminated && !s.restSeen && (s.P.subs s.cmd) ≠ [] then completeCommands s lastarg else []
+
+/-- the walk of `completion.complete` over all words but the last -/
+def compStart (P : Parser) (args : List Bytes) : CS :=
+  ({ P := P, args := args, positional := [], cmd := 0 } : CS).fill 0
+
 /-- `completion.complete(args)`: items sorted by their text -/
 def complete (P : Parser) (args : List Bytes) : List (Bytes × Bytes) :=
   let args := if args = [] then [[]] else args
-  let s0 : CS := ({ P := P, args := args, positional := [], cmd := 0 } : CS).fill 0
-  let (s, opt) := compWalk (args.length + 1) s0 none
-  let lastarg := s.args.getLastD []
-  let ret : List (Bytes × Bytes) :=
-    match opt with
-    | some r => completeValue (s.P.opt r).ty [] lastarg
-    | none =>
-      if argumentStartsOption lastarg then
-        let (pfx, optname, islong) := stripOptionPrefix lastarg
-        let (optname', split, argument) := splitOption optname islong
-        match argument with
-        | none =>
-          if !islong then
-            let (rname, n) := decodeRune optname'
-            match s.P.lookupShort s.cmd rname with
-            | some r =>
-              if (s.P.opt r).ty.canArgument then completeValue (s.P.opt r).ty (pfx ++ encodeRune rname) (optname'.drop n)
-              else completeOptionNames s pfx optname' true
-            | none => completeOptionNames s pfx optname' true
-          else completeOptionNames s pfx optname' false
-        | some a =>
-          let o := if islong then s.P.lookupLong s.cmd optname'
-                   else if encodeRune (decodeRune optname').1 = optname' then s.P.lookupShort s.cmd (decodeRune optname').1 else none
-          match o with
-          | some r => completeValue (s.P.opt r).ty (pfx ++ optname' ++ split) a
-          | none => []
-      else
-        match s.positional with
-        | p :: _ => completeValue (s.P.argAt p).ty [] lastarg
-        | [] => if (s.P.subs s.cmd) ≠ [] then completeCommands s lastarg else []
-  ret.foldr insertItem []
+  let w := compWalk (args.length + 1) (compStart P args) none
+  (completeLast w.1 w.2.1 w.2.2 (w.1.args.getLastD [])).foldr insertItem []
 
 end GoFlags
